@@ -215,7 +215,6 @@ def frame_analysis(A, an):
       gates:    [{...facts evaluated at the instant `state = Done` is executed...}]"""
     ip = A.ip
     push = an.push
-    pay_locals = local_by_name(push, "payload")
 
     def self_root(st):
         return st.ghost.get("dec-self")
@@ -223,13 +222,6 @@ def frame_analysis(A, an):
     def is_self_crc(st, ref):
         root = self_root(st)
         return isinstance(ref, VRef) and root is not None and ref.root == root and ref.steps[:1] == (("f", an.i_crc),)
-
-    def cur_payload(ip_, frame, st):
-        for l in pay_locals:
-            v = st.mem.get(("L", frame.fid, l))
-            if isinstance(v, VArr) and len(v.elems) == 4:
-                return v
-        return None
 
     def push_frame(ip_, st):
         return st.ghost.get("fa-push-frame")
@@ -241,22 +233,14 @@ def frame_analysis(A, an):
         d = r["def"]
         if frame.body is push and "fa-push-frame" not in st.ghost:
             st.ghost["fa-push-frame"] = frame.fid
-        if d == "core::num::<impl u16>::from_le_bytes" and frame.body is push:
+        if d == "core::num::<impl u16>::from_le_bytes":
             arr = args[0]
-            pl = cur_payload(ip_, frame, st)
-            obj = st.mem[self_root(st)]
             st.ghost["fa-read-args"] = tuple(e.lin for e in arr.elems) if isinstance(arr, VArr) else None
-            st.ghost["fa-payload"] = tuple(e.lin for e in pl.elems) if pl is not None else None
-            st.ghost["fa-zc0"] = obj.elems[an.i_zc].lin
         if d == "std::mem::swap":
             if any(is_self_crc(st, a) for a in args):
                 st.ghost["fa-swapped"] = True
         if d == an.F.bodies and False:
             pass
-        if callee.get("method") == "flush" and callee.get("impl_self_ty", {}).get("def") == NOD or d.endswith("NonOwningDecoder::flush"):
-            if st.ghost.get("fa-calc") is not None and "fa-flush-zc" not in st.ghost:
-                obj = st.mem[self_root(st)]
-                st.ghost["fa-flush-zc"] = obj.elems[an.i_zc].lin
         if callee.get("trait") == "util::Buffer" and callee.get("method") == "clear":
             st.ghost["fa-cleared-at"] = len(st.ghost.get("fa-pushed", ()))
         if callee.get("trait") == "util::Buffer" and callee.get("method") == "push":
@@ -309,9 +293,11 @@ def frame_analysis(A, an):
         g = {"kind": "gate", "part": st.ghost.get("dec-part"), "fn": frame.body["def"],
              "line": stmt["span"]["line"]}
         rd = st.ghost.get("fa-read-args")
-        pl = st.ghost.get("fa-payload")
+        # the escape payload of this step: the three bytes collected in the entry state and the byte being pushed
+        p0, bnow = st.ghost.get("dec-payload0"), st.ghost.get("dec-b")
+        pl = (p0[0], p0[1], p0[2], bnow) if p0 is not None and bnow is not None else None
         calc = st.ghost.get("fa-calc")
-        zc0 = st.ghost.get("fa-zc0")
+        zc0 = st.ghost.get("dec-zc0")
         raw = obj.elems[an.i_raw].lin
         g["have"] = {"read": rd is not None, "payload": pl is not None, "calc": calc is not None}
         g["crc_eq"] = bool(rd and calc is not None and len(rd) == 2 and st.prove_eq0(rd[0] + rd[1].scale(256) - calc))
@@ -328,22 +314,32 @@ def frame_analysis(A, an):
         g["endmark"] = bool(pl and st.const_of(pl[0]) == 0x1a)
         step0 = st.ghost.get("dec-step0")
         g["step3"] = step0 is not None and st.const_of(step0) == 3
-        fz = st.ghost.get("fa-flush-zc")
-        g["flush_zc"] = bool(pl and zc0 is not None and fz is not None and st.prove_eq0(fz - (zc0 - pl[1])))
         g["flushed_zeros"] = st.ghost.get("fa-pushed")
         g["pushed_all_zero"] = all(st.const_of(x) == 0 for x in st.ghost.get("fa-pushed", ()))
         g["n_pushed"] = len(st.ghost.get("fa-pushed", ()))
         g["n_pushed_eq"] = bool(pl and zc0 is not None and st.prove_eq0(Lin.const(len(st.ghost.get("fa-pushed", ()))) - (zc0 - pl[1])))
+        g["flush_zc"] = g["n_pushed_eq"]
         g["dfed_at_final"] = repr(st.ghost.get("fa-dfed-at-final"))
         g["dfed_at_final_is_2"] = st.ghost.get("fa-dfed-at-final") == Lin.const(2)
-        g["zc_after"] = st.const_of(obj.elems[an.i_zc].lin)
+        g["zc_after"] = 0 if st.prove_eq0(obj.elems[an.i_zc].lin) else st.const_of(obj.elems[an.i_zc].lin)
         g["no_unproved_checks"] = not st.ghost.get("unproved-asserts")
         g["unproved"] = st.ghost.get("unproved-asserts")
         ip_.observe(g)
 
+    b_locals = [i for i in range(1, push["arg_count"] + 1) if push["locals"][i]["ty"].get("k") == "int" and push["locals"][i]["ty"].get("w") == 8]
+    if len(b_locals) != 1:
+        raise AnchorMissing("push_byte: byte argument")
+
+    def on_block(ip_, frame, bb, st):
+        if bb == 0 and frame.body is push and st.ghost.get("fa-on") and "dec-b" not in st.ghost:
+            v = st.mem.get(("L", frame.fid, b_locals[0]))
+            if isinstance(v, VInt):
+                st.ghost["dec-b"] = v.lin
+
     ip.on_call.append(on_call)
     ip.on_crc.append(on_crc)
     ip.on_assign.append(on_assign)
+    ip.on_block.append(on_block)
     outs = []
     old_thr = ip.join_threshold
     try:
@@ -357,10 +353,14 @@ def frame_analysis(A, an):
             st.ghost["dec-self"] = root
             st.ghost["dec-part"] = key
             st.ghost["fa-on"] = True
+            st.ghost["dec-zc0"] = obj0.elems[an.i_zc].lin
             starts = [st]
             if key == an.v_payload:
                 step = obj0.elems[an.i_state].pay[an.v_payload][an.i_step].lin
                 st.ghost["dec-step0"] = step
+                pl0 = obj0.elems[an.i_state].pay[an.v_payload][an.i_payload]
+                if isinstance(pl0, VArr) and len(pl0.elems) == 4:
+                    st.ghost["dec-payload0"] = tuple(e.lin for e in pl0.elems)
                 # one run per value of the escape-payload index: the store payload[step] = b is then exact
                 lo, hi = st.interval(step)
                 if lo is not None and hi is not None and 0 < hi - lo <= 16:
@@ -383,6 +383,7 @@ def frame_analysis(A, an):
         ip.on_call.remove(on_call)
         ip.on_crc.remove(on_crc)
         ip.on_assign.remove(on_assign)
+        ip.on_block.remove(on_block)
     gates = A.observations("gate")
     return outs, gates
 
